@@ -114,8 +114,86 @@ static Frame gen_frame(Src &s, Report &r) {
 	return f;
 }
 
+// ---------- raw lines: VBI_SLICED_VBI_625 records carried as monochrome 4:2:2 sample data units (EN 301 775 4.9) ----------
+// The samples of every raw line must be those of its row of the caller's image (rows laid out as the sampling parameters say:
+// sequential = first field then second field, interlaced = alternating), in segments of at most 40 samples that follow each other
+// from first_pixel_position = offset - 132, flagged first / last, in line order together with the sliced lines.
+static int raw_case(Src &s, Report &r) {
+	vbi_sampling_par sp; memset(&sp, 0, sizeof sp);
+	sp.scanning = 625; sp.sampling_format = VBI_PIXFMT_YUV420; sp.sampling_rate = 13500000; sp.synchronous = TRUE;
+	unsigned off = 132 + (s.chance(1, 2) ? 0 : s.pick(300));
+	unsigned room = 132 + 720 - off;
+	unsigned spl = s.chance(1, 3) ? room : 1 + s.pick(room);
+	sp.offset = (int) off; sp.bytes_per_line = (int) spl;
+	sp.start[0] = 7 + (int) s.pick(10); sp.count[0] = 1 + (int) s.pick((uint32_t) (23 - sp.start[0] + 1));
+	sp.start[1] = 320 + (int) s.pick(10); sp.count[1] = 1 + (int) s.pick((uint32_t) (335 - sp.start[1] + 1));
+	sp.interlaced = s.chance(1, 4);
+	if (sp.interlaced) { int c = std::min(sp.count[0], sp.count[1]); sp.count[0] = sp.count[1] = c; }
+	unsigned rows = (unsigned) (sp.count[0] + sp.count[1]), seed = s.u8();
+	std::vector<uint8_t> raw((size_t) rows * spl);
+	for (unsigned y = 0; y < rows; ++y) for (unsigned x = 0; x < spl; ++x) raw[(size_t) y * spl + x] = (uint8_t) (y * 53 + x * 7 + seed);
+	// the frame: raw lines and a few Teletext lines, ascending
+	std::vector<vbi_sliced> sl;
+	for (int f = 0; f < 2; ++f) for (int k = 0; k < sp.count[f]; ++k) {
+		unsigned line = (unsigned) (sp.start[f] + k); unsigned what = s.pick(6);
+		if (what >= 3) continue;
+		vbi_sliced x; memset(&x, 0, sizeof x); x.line = line;
+		if (what == 2 && (line <= 22 || line >= 320)) { x.id = VBI_SLICED_TELETEXT_B_625; for (int i = 0; i < 42; ++i) x.data[i] = s.u8(); }
+		else x.id = VBI_SLICED_VBI_625;
+		sl.push_back(x);
+	}
+	if (sl.empty()) { vbi_sliced x; memset(&x, 0, sizeof x); x.id = VBI_SLICED_VBI_625; x.line = (unsigned) sp.start[1]; sl.push_back(x); }
+	Out out;
+	vbi_dvb_mux *m = vbi_dvb_pes_mux_new(mux_cb, &out);
+	if (!m) return 2;
+	int64_t pts = s.u32();
+	vbi_bool ok = vbi_dvb_mux_feed(m, sl.data(), (unsigned) sl.size(), ~0u, raw.data(), &sp, pts);
+	vbi_dvb_mux_delete(m);
+	r.say("raw case: offset %u spl %u start %d+%d count %d+%d %s, %zu lines -> %s, %zu bytes\n", off, spl, sp.start[0], sp.start[1], sp.count[0], sp.count[1], sp.interlaced ? "interlaced" : "sequential", sl.size(), ok ? "accepted" : "rejected", out.bytes.size());
+	r.cls(ok ? "raw:accepted" : "raw:rejected");
+	if (!ok) {
+		if (!out.bytes.empty()) return r.fail("C06:rejected-frame-output", "a frame with raw lines was rejected but produced %zu output bytes", out.bytes.size());
+		// the frame needs more than the default maximum PES size when many raw lines are long: a legitimate refusal
+		return 0;
+	}
+	dvb::Pes pp; std::string err = dvb::parse_pes(out.bytes.data(), out.bytes.size(), &pp);
+	if (!err.empty()) return r.fail("C06:nonconformant-output", "frame with raw lines: %s", err.c_str());
+	size_t ui = 0;
+	for (auto &x : sl) {
+		while (ui < pp.units.size() && !pp.units[ui].is_line) ++ui;
+		if (x.id != VBI_SLICED_VBI_625) {
+			if (ui >= pp.units.size() || pp.units[ui].l.svc != dvb::TTX || pp.units[ui].l.line != x.line || memcmp(pp.units[ui].l.data, x.data, 42)) return r.fail("C06:lines-differ", "frame with raw lines: Teletext line %u is not where it belongs in the packet", x.line);
+			++ui; continue;
+		}
+		unsigned field = x.line >= 313, rowi = x.line - (unsigned) sp.start[field];
+		unsigned row = sp.interlaced ? rowi * 2 + field : rowi + (field ? (unsigned) sp.count[0] : 0);
+		const uint8_t *want = raw.data() + (size_t) row * spl;
+		unsigned got_n = 0; bool first = true;
+		for (;;) {
+			while (ui < pp.units.size() && !pp.units[ui].is_line) ++ui;
+			if (ui >= pp.units.size() || pp.units[ui].l.svc != dvb::RAW || pp.units[ui].l.line != x.line) return r.fail("C06:raw-line-segments", "raw line %u: %u of %u samples found, then the packet goes on with something else", x.line, got_n, spl);
+			const dvb::Unit &u = pp.units[ui++];
+			if ((bool) u.first_seg != first) return r.fail("C06:raw-line-segments", "raw line %u: first_segment flag %d on the segment at sample %u", x.line, (int) (bool) u.first_seg, got_n);
+			if (u.first_pixel != off - 132 + got_n) return r.fail("C06:raw-line-segments", "raw line %u: segment starts at pixel %u, expected %u (offset %u - 132 + %u samples sent)", x.line, u.first_pixel, off - 132 + got_n, off, got_n);
+			if (u.n_pixels == 0 || u.n_pixels > 40 || got_n + u.n_pixels > spl) return r.fail("C06:raw-line-segments", "raw line %u: segment of %u samples after %u of %u", x.line, u.n_pixels, got_n, spl);
+			if (memcmp(u.samples.data(), want + got_n, u.n_pixels)) return r.fail("C06:raw-line-samples", "raw line %u (image row %u of %u, %s): the segment at sample %u does not carry the samples of that row (first sample %02x, row has %02x)", x.line, row, rows, sp.interlaced ? "interlaced" : "sequential", got_n, u.samples[0], want[got_n]);
+			got_n += u.n_pixels; first = false;
+			bool last = got_n == spl;
+			if ((bool) u.last_seg != last) return r.fail("C06:raw-line-segments", "raw line %u: last_segment flag %d after %u of %u samples", x.line, (int) (bool) u.last_seg, got_n, spl);
+			if (last) break;
+		}
+	}
+	while (ui < pp.units.size() && !pp.units[ui].is_line) ++ui;
+	if (ui < pp.units.size()) return r.fail("C06:lines-differ", "frame with raw lines: the packet carries more line data units than were sent");
+	if (pp.pts != (pts & ((1LL << 33) - 1))) return r.fail("C06:pts", "frame with raw lines: PTS %lld in the packet, %lld sent", (long long) pp.pts, (long long) pts);
+	r.nontrivial = sp.count[0] != sp.count[1] || spl > 40;
+	return 0;
+}
+
 int vf_run_case(Src &s, Report &r) {
-	bool ts = s.chance(1, 2);
+	unsigned first_choice = s.u8();	// >= 128: TS, 100-127: a frame with raw lines, below: PES (as s.chance(1, 2) did, except for 100-127)
+	if (first_choice >= 100 && first_choice < 128) return raw_case(s, r);
+	bool ts = first_choice >= 128;
 	unsigned pid = 0;
 	if (ts) { static const unsigned pids[] = {0x10, 0x1FFE, 0x100, 0x1234}; pid = s.chance(1, 2) ? pids[s.pick(4)] : s.range(0x10, 0x1FFE); }
 	unsigned di; bool di_legal = true;
